@@ -83,7 +83,7 @@ prop("C18", lambda t, s: [("mc", "ConcurrencyMc", "McConc"), ("mc_broken", "Conc
      assumptions=["the Go race detector reports only the races that occur in the sampled schedules"])
 
 # vacuity guard: the least number of distinct behaviours each configuration must emit for replay
-MIN_BEHAVIOURS = {"McLoose": 100, "McTwcc3": 3500, "McWirePairs": 1100, "McFaultsDev": 400, "McWire": 900, "McFaults": 3000, "McFaults2": 20000, "McLimits": 80, "McVariants": 250, "McForeign": 800, "McDispatch": 3000,
+MIN_BEHAVIOURS = {"McLoose": 80, "McTwcc3": 3500, "McWirePairs": 1100, "McFaultsDev": 400, "McWire": 900, "McFaults": 3000, "McFaults2": 20000, "McLimits": 80, "McVariants": 250, "McForeign": 800, "McDispatch": 3000,
                   "McDispatchAll": 30000, "McDgram": 600, "McDgram3": 10000, "McCompound": 5000, "McCompound4": 50000, "McNack": 5000,
                   "McNackThorough": 15000, "McTwcc": 7000, "McTwccThorough": 50000, "McRemb": 2100, "McRembThorough": 5000, "McWireRemb": 100,
                   "McXr": 300, "McXrThorough": 4000, "McWireXr": 180, "McUnits": 200, "McUnitsThorough": 1500, "McWireUnits": 250,
